@@ -102,6 +102,7 @@ impl<'a> Emitter<'a> {
         match k {
             Kind::Tuple => format!("({})", args.join(", ")),
             Kind::Rec => format!("Rec {{ a: {}, b: {} }}", args[0], args[1]),
+            Kind::Wrap => format!("Wrap({}, {})", args[0], if a[1] == Term::Nil { "None".to_string() } else { format!("Some({})", args[1]) }),
             k => format!("{}({})", k.name(), args.join(", ")),
         }
     }
